@@ -52,6 +52,8 @@ func (r *addrsRecord) flush(write ds.Write) (err error) {
 	key := addrBookBase.ChildString(b32.RawStdEncoding.EncodeToString(r.Id))
 
 	if len(r.Addrs) == 0 {
+		// The signed record lives only as long as the peer has addresses.
+		r.CertifiedRecord = nil
 		if err = write.Delete(context.TODO(), key); err == nil {
 			r.dirty = false
 		}
@@ -107,6 +109,9 @@ func (r *addrsRecord) clean(now time.Time) (chgd bool) {
 	}
 
 	r.Addrs = removeExpired(r.Addrs, nowUnix)
+	if len(r.Addrs) == 0 {
+		r.CertifiedRecord = nil
+	}
 
 	return r.dirty || len(r.Addrs) != addrsLen
 }
